@@ -48,6 +48,12 @@ def tail_signature(facts, fn, engines):
     return out
 
 
+def _fresh_core(ip):
+    st = ip.new_state()
+    ip.arg_object(st, 'core')
+    return st
+
+
 def normalise(s):
     import re
     return re.sub(r'#\d+', '#', s)
@@ -119,13 +125,36 @@ def run(ctx, chk):
             if any(('registers.ip' not in n and 'get_address_for_ip' not in n and 'ret:' not in n and 'discr' not in n)
                    for n in names) and not any('ret:' in n for n in names):
                 pass
-    okj = sel['jit'] and all(hi <= 0x7fff for lo, hi in sel['jit'])
-    oki = sel['interp'] and all(lo >= 0x8000 for lo, hi in sel['interp'])
-    if okj and oki:
+    # translated code may be selected for ROM addresses only (anything else is written by the guest and never
+    # invalidated); which ROM addresses are left to the interpreter is the implementation's choice, C04.3 and C01.11
+    # cover the consequences.  Decided bit-precisely on the path conditions.
+    from .. import bvproof
+    from ..bdd import BV
+    badsel = None
+    njit = ninterp = 0
+    for r in ip.run(RCB, [core], ip.new_state() if False else _fresh_core(ip)):
+        if r.status != 'ok':
+            continue
+        calls = [e[1] for e in r.state.events if e[0] == 'call']
+        if CALL in calls and IRCB in calls:
+            badsel = 'a path runs both engines'
+        if CALL in calls:
+            njit += 1
+            m, conv, K = bvproof.setup(r.state.env)
+            x = conv(ipreg)
+            D = m.AND(K, m.NOT(x.ult(BV.const(m, len(x), 0x8000))))
+            if D != 0:
+                w = m.witness(D)
+                badsel = 'translated code is selected for PC = %#x, outside ROM' % w.get(ipreg[2], 0)
+        elif IRCB in calls:
+            ninterp += 1
+        else:
+            badsel = badsel or 'a path of run_code_block runs no engine'
+    if not badsel and njit and ninterp:
         chk.ok('C04.2', 'selection', sample={'translated': sorted(sel['jit']), 'interpreted': sorted(sel['interp'])})
     else:
-        chk.fail('C04.2', 'selection', 'jit build runs translated code for PC in %s and the interpreter for %s; expected '
-                 '< 0x8000 / >= 0x8000' % (sorted(sel['jit']), sorted(sel['interp'])), file, None)
+        chk.fail('C04.2', 'selection', 'engine selection in the jit build: %s (translated for PC in %s, interpreter for %s)'
+                 % (badsel or 'one engine is never selected', sorted(sel['jit']), sorted(sel['interp'])), file, None)
     nd = sorted(set(c[0] for c in pd.callers(IRCB)))
     nj = sorted(set(c[0] for c in pj.callers(IRCB)))
     if nd == [RCB] and nj == [RCB]:
@@ -186,34 +215,172 @@ def block_rules(ctx, chk, fd, fj):
             chk.ok('C04.3', key)
         else:
             chk.fail('C04.3', key, '%s does not end blocks on Op::is_block_end of the decoder output' % fn, None, None)
-    # (b) exit tables
-    ti = interp_exit_table(fd)
-    tj = jit_exit_table(fj)
-    chk.extra['interp_exit_table'] = {str(k): v for k, v in ti.items()}
-    chk.extra['jit_exit_table'] = {str(k): v for k, v in tj.items()}
-    for t, a, b in itertools.product((0, 1), (0, 1), (0, 1)):
-        key = 'exit:term=%d,start_low=%d,next_low=%d' % (t, a, b)
-        want = bool(t or a != b)
-        gi = ti.get((t, a, b))
-        gj = tj.get((t, a, b, 1))
-        if gi is not None and len(gi) == 1 and gj is None and (a, b) == (0, 1):
-            # the translator's next-instruction index never lies below the block start (index only grows):
-            # this class is infeasible on that side
-            chk.ok('C04.3', key, nontrivial=False)
-        elif gi is not None and len(gi) == 1 and gi == gj:
-            chk.ok('C04.3', key, sample={'terminator': t, 'start<0x4000': a, 'next<0x4000': b, 'block ends': sorted(gi)[0]})
-        else:
-            chk.fail('C04.3', key, 'terminator=%d, block starts %s 0x4000, next instruction %s 0x4000: interpreter ends the '
-                     'block: %s, translator ends the block: %s (the engines must agree)'
-                     % (t, 'below' if a else 'at/above', 'below' if b else 'at/above', sorted(gi or []), sorted(gj or [])),
-                     'src/interpreter/mod.rs', None)
+    # (b) loop-exit predicates of the two engines as Boolean functions of (terminator flag, block start, address of the
+    #     next instruction), compared bit-precisely on the domain the translator is used for
+    exit_functions(ctx, chk, fd, fj)
+
+
+def exit_functions(ctx, chk, fd, fj):
+    from .. import bvproof
+    from ..bdd import BDD, BV, TermBV, Unsupported
+    m = BDD()
+    conv = TermBV(m)
+    Tt, START, NEXT = S(1, 'T'), S(64, 'START'), S(64, 'NEXT')
+    vT, vS, vN = conv(Tt).b[0], conv(START), conv(NEXT)
+
+    def collect(paths, rename_of, keep):
+        ex = co = 0
+        n = 0
+        for r in paths:
+            if r.status not in ('ok', 'loopback'):
+                continue
+            ren = rename_of(r)
+            if ren is None or not keep(r):
+                continue
+            _, _, K = bvproof.setup(r.state.env, m, conv, ren, only={'T', 'START', 'NEXT'})
+            n += 1
+            if r.status == 'ok':
+                ex = m.OR(ex, K)
+            else:
+                co = m.OR(co, K)
+        return ex, co, n
+    # interpreter
+    ip = absint.Interp(fd, opaque=[RNO], opaque_havoc={RNO: [0]}, loop_mode='havoc', trust_asserts=('overflow',))
+    st = ip.new_state()
+    regs = ip.arg_object(st, 'regs')
+    E = S(32, 'regs.ip', ('field', 'cpu::Registers', 'ip', 'u32'))
+    rsi = ip.run(IRCB, [regs, S(0, 'mem')], st)
+
+    def ren_i(r):
+        calls = [e for e in r.state.events if e[0] == 'call' and e[1] == RNO]
+        if not calls:
+            return None
+        ret = calls[-1][3]
+        tsym = find_sym(r, lambda s_: s_[1] == 1 and s_[2].startswith(ret[2]))
+        nsym = find_sym(r, lambda s_: s_[3] and s_[3][0] == 'field' and s_[3][2] == 'ip' and 'call(run_next_op)' in s_[2])
+        mp = {E: O(32, 'trunc', START)}
+        if tsym is not None:
+            mp[tsym] = Tt
+        if nsym is not None:
+            mp[nsym] = O(32, 'trunc', NEXT)
+        return mp
+
+    def some_arm(r):
+        calls = [e for e in r.state.events if e[0] == 'call' and e[1] == RNO]
+        ret = calls[-1][3]
+        return any('discr(%s)' % ret[2] in fmt(d[0]) and r.state.env.const_of(d[0]) == 1 for d in r.state.decisions)
+    exI, coI, nI = collect(rsi, ren_i, some_arm)
+    # translator
+    opq = ['decoder::decode', 'emitter::x86_64::Emitter::encode_op', 'decoder::ops::Op::is_block_end',
+           'cache::CodeCache::get_executable_memory_segment', 'emitter::x86_64::Emitter::encode_epilogue',
+           'cache::CodeCache::insert_code_block', 'cache::linux::ExecutableMemory::make_writable',
+           'cache::linux::ExecutableMemory::make_executable', 'cache::linux::ExecutableMemory::get_memory_area_mut',
+           'emitter::x86_64::Emitter::new']
+
+    def sf(t):
+        # a fetchable address yields a non-empty segment (the empty-slice exit has its interpreter counterpart in the
+        # None arm of run_next_op, which is excluded on that side as well)
+        if t[3] and t[3][0] == 'len' and 'get_executable_memory_segment' in t[3][1]:
+            return AV(64, 1, 1 << 40)
+        return None
+    ipj = absint.Interp(fj, opaque=opq, loop_mode='havoc', trust_asserts=('overflow', 'bounds', 'slice_index'), sym_facts=sf)
+    st = ipj.new_state()
+    cache = ipj.arg_object(st, 'cache')
+    I = S(64, 'ip')
+    rsj = ipj.run(TCB, [cache, S(0, 'code'), I, S(0, 'mem')], st)
+
+    def ren_j(r):
+        bsym = find_sym(r, lambda s_: s_[1] == 1 and s_[2].startswith('loopvar:'))
+        xsym = None
+        for k_, t_, v_ in r.state.env.log:
+            ss = syms_of(t_)
+            for s_ in ss:
+                if s_[1] == 64 and s_[2].startswith('loopvar:') and 'len(' not in s_[2]:
+                    if I in ss or xsym is None:
+                        xsym = s_
+        if bsym is None:
+            return None
+        mp = {I: START, bsym: Tt}
+        if xsym is not None:
+            mp[xsym] = NEXT
+        return mp
+    exJ, coJ, nJ = collect(rsj, ren_j, lambda r: True)
+    if not nI or not nJ:
+        chk.error('C04.3: could not extract the loop-exit paths (interpreter %d, translator %d)' % (nI, nJ))
+        return
+    # domain: blocks the translator is used for, next instruction after the start unless the block was ended by a jump
+    ipc = absint.Interp(fj)
+    st = ipc.new_state()
+    P = 0
+    for r in ipc.run('mem::can_dynarec', [START], st):
+        if r.status != 'ok' or r.ret is None:
+            continue
+        _, _, K = bvproof.setup(r.state.env, m, conv)
+        try:
+            P = m.OR(P, m.AND(K, conv(r.ret).b[0]))
+        except Unsupported:
+            chk.error('C04.3: can_dynarec is outside the bit-vector fragment')
+            return
+    D = m.AND(P, vS.ult(BV.const(m, 64, 0x8000)))
+    D = m.AND(D, vN.ule(BV.const(m, 64, 0xffff)))
+    D = m.AND(D, vS.ule(vN))            # the translator's index only grows; a backward jump is a terminator (below)
+    D = m.AND(D, m.OR(vT, vS.ult(vN)))
+    allT = m.AND(m.AND(P, vS.ult(BV.const(m, 64, 0x8000))), m.AND(vT, vN.ule(BV.const(m, 64, 0xffff))))
+    leak = m.AND(allT, m.NOT(exI))
+    if leak != 0:
+        w = m.witness(leak)
+        chk.fail('C04.3', 'terminator-ends-block', 'the interpreter continues a block after a terminator: block start %#x, '
+                 'next instruction at %#x' % (w.get('START', 0), w.get('NEXT', 0)), 'src/interpreter/mod.rs', None)
+    else:
+        chk.ok('C04.3', 'terminator-ends-block')
+
+    def show(w):
+        return 'terminator=%d, block start %#x, next instruction at %#x' % (w.get('T', 0), w.get('START', 0), w.get('NEXT', 0))
+    file = 'src/interpreter/mod.rs'
+    for nm, ex, co in (('interpreter', exI, coI), ('translator', exJ, coJ)):
+        both = m.AND(D, m.AND(ex, co))
+        none = m.AND(D, m.NOT(m.OR(ex, co)))
+        if both != 0 or none != 0:
+            chk.error('C04.3: the %s loop-exit decision is not a function of (terminator, start, next): e.g. %s'
+                      % (nm, show(m.witness(both if both != 0 else none))))
+            return
+    diff = m.AND(D, m.XOR(exI, exJ))
+    # classes for reporting: the property needs agreement everywhere; list a few named sub-domains
+    lowS, lowN = vS.ult(BV.const(m, 64, 0x4000)), vN.ult(BV.const(m, 64, 0x4000))
+    for t in (0, 1):
+        for a in (0, 1):
+            for b in (0, 1):
+                cls = m.AND(vT if t else m.NOT(vT), m.AND(lowS if a else m.NOT(lowS), lowN if b else m.NOT(lowN)))
+                key = 'exit:term=%d,start_low=%d,next_low=%d' % (t, a, b)
+                d = m.AND(diff, cls)
+                if m.AND(D, cls) == 0:
+                    chk.ok('C04.3', key, nontrivial=False)
+                elif d == 0:
+                    chk.ok('C04.3', key, sample={'class': key, 'engines agree on every (start, next) of the class': True})
+                else:
+                    w = m.witness(d)
+                    wi = m.AND(d, exI) != 0 and m.witness(m.AND(d, exI)) or w
+                    chk.fail('C04.3', key, 'the engines cut blocks differently: %s: interpreter %s, translator %s '
+                             '(block-by-block stepping diverges)' % (show(w), 'ends the block' if _holds(m, exI, w) else 'continues',
+                                                                      'ends the block' if _holds(m, exJ, w) else 'continues'),
+                             file, None)
     # first iteration of the translator (next == start, nothing translated yet) must continue
-    first = tj.get((0, 1, 1, 0)), tj.get((0, 0, 0, 0))
-    if first == ({False}, {False}):
+    first = m.AND(m.AND(P, vS.ult(BV.const(m, 64, 0x8000))), m.AND(vS.eq(vN), m.NOT(vT)))
+    stop = m.AND(first, exJ)
+    if stop == 0 and first != 0:
         chk.ok('C04.3', 'first-iteration')
     else:
-        chk.fail('C04.3', 'first-iteration', 'translator may end a block before translating its first instruction: %s' % (first,),
-                 'src/cache/mod.rs', None)
+        chk.fail('C04.3', 'first-iteration', 'translator may end a block before translating its first instruction: %s'
+                 % show(m.witness(stop if stop != 0 else 1)), 'src/cache/mod.rs', None)
+
+
+def _holds(m, f, w):
+    n = f
+    while n > 1:
+        v, lo, hi = m.node[n]
+        sym, bit = m.names[v]
+        n = hi if (w.get(sym, 0) >> bit) & 1 else lo
+    return bool(n)
 
 
 def interp_exit_table(facts):
